@@ -25,3 +25,173 @@ def writerBatch (cfg : WriterCfg) (b : WBatch) : WBatch :=
   { b with entries := b.entries.map (writerEntry cfg) }
 
 end Fjall.Journal
+
+namespace Fjall.Journal
+open Fjall
+
+/-! ### `BufWriter<File>` + journal writer + poison flag, with a syscall trace and a fault plan -/
+
+inductive Sys
+  | write (requested : Nat) (written : Nat)     -- write(2): bytes asked / bytes taken by the OS
+  | writeFail (requested : Nat)
+  | fsync (ok : Bool)
+  | fdatasync (ok : Bool)
+  deriving Repr, DecidableEq
+
+inductive PersistMode | buffer | syncData | syncAll
+  deriving Repr, DecidableEq
+
+structure Writer where
+  /-- bytes the OS has taken (completed `write(2)` calls), in file order -/
+  os : Bytes := []
+  /-- user-space buffer of the `BufWriter` -/
+  buf : Bytes := []
+  dirty : Bool := false
+  /-- length of the file that is known durable (last successful fsync / fdatasync) -/
+  synced : Nat := 0
+  trace : List Sys := []
+  cap : Nat := 8192
+  /-- fault plan: journal syscalls numbered from 1; from `failAt` on every call fails; the call
+      number `failAt` itself, if it is a write, first takes `shortK` bytes -/
+  calls : Nat := 0
+  failAt : Option Nat := none
+  shortK : Option Nat := none
+  deriving Repr, DecidableEq
+
+inductive IoRes | ok | err
+  deriving Repr, DecidableEq
+
+def Writer.failing (w : Writer) : Bool :=
+  match w.failAt with
+  | none => false
+  | some n => n ≤ w.calls + 1
+
+/-- one `write(2)` of `d`: returns how many bytes were taken, or failure -/
+def Writer.sysWrite (w : Writer) (d : Bytes) : Writer × Option Nat :=
+  let c := w.calls + 1
+  if w.failing then
+    match w.failAt, w.shortK with
+    | some n, some k =>
+      if n = c ∧ 0 < k ∧ k < d.length then
+        ({ w with calls := c, os := w.os ++ d.take k, trace := w.trace ++ [.write d.length k] }, some k)
+      else ({ w with calls := c, trace := w.trace ++ [.writeFail d.length] }, none)
+    | _, _ => ({ w with calls := c, trace := w.trace ++ [.writeFail d.length] }, none)
+  else ({ w with calls := c, os := w.os ++ d, trace := w.trace ++ [.write d.length d.length] }, some d.length)
+
+/-- `write_all` on the raw file: loop until everything is taken or an error occurs -/
+def Writer.rawWriteAll (w : Writer) (d : Bytes) : Nat → Writer × IoRes
+  | 0 => (w, .err)
+  | fuel+1 =>
+    if d.isEmpty then (w, .ok) else
+    match w.sysWrite d with
+    | (w', none) => (w', .err)
+    | (w', some 0) => (w', .err)            -- WriteZero
+    | (w', some k) => Writer.rawWriteAll w' (d.drop k) fuel
+
+/-- `BufWriter::flush_buf`: write out the buffer; what was not taken stays buffered -/
+def Writer.flushBuf (w : Writer) : Nat → Writer × IoRes
+  | 0 => (w, .err)
+  | fuel+1 =>
+    if w.buf.isEmpty then (w, .ok) else
+    match w.sysWrite w.buf with
+    | (w', none) => (w', .err)
+    | (w', some 0) => (w', .err)
+    | (w', some k) => Writer.flushBuf { w' with buf := w'.buf.drop k } fuel
+
+/-- `BufWriter::write_all(d)` -/
+def Writer.writeAll (w : Writer) (d : Bytes) : Writer × IoRes :=
+  let (w1, r1) := if w.buf.length + d.length > w.cap then w.flushBuf (w.buf.length + 1) else (w, .ok)
+  match r1 with
+  | .err => (w1, .err)
+  | .ok =>
+    if d.length ≥ w1.cap then w1.rawWriteAll d (d.length + 1)
+    else ({ w1 with buf := w1.buf ++ d }, .ok)
+
+/-- `Writer::write_raw` / `write_clear` / `write_batch`: mark dirty, then `write_all` every piece
+    (start marker, each item, end marker); stops at the first error -/
+def Writer.writePieces (w : Writer) (pieces : List Bytes) : Writer × IoRes :=
+  pieces.foldl (fun (acc : Writer × IoRes) p => match acc.2 with
+    | .err => acc
+    | .ok => acc.1.writeAll p) ({ w with dirty := true }, .ok)
+
+def Writer.sysSync (w : Writer) (data : Bool) : Writer × IoRes :=
+  let c := w.calls + 1
+  if w.failing then
+    ({ w with calls := c, trace := w.trace ++ [if data then .fdatasync false else .fsync false] }, .err)
+  else
+    ({ w with calls := c, synced := w.os.length, trace := w.trace ++ [if data then .fdatasync true else .fsync true] }, .ok)
+
+/-- `Writer::persist(mode)` -/
+def Writer.persist (w : Writer) (mode : PersistMode) : Writer × IoRes :=
+  let (w1, r1) := if w.dirty then w.flushBuf (w.buf.length + 1) else (w, .ok)
+  match r1 with
+  | .err => (w1, .err)
+  | .ok =>
+    let w2 := if w.dirty then { w1 with dirty := false } else w1
+    match mode with
+    | .buffer => (w2, .ok)
+    | .syncData => w2.sysSync true
+    | .syncAll => w2.sysSync false
+
+/-! #### the database-level write paths (src/keyspace/mod.rs, src/batch/mod.rs, src/db.rs) -/
+
+structure JDb where
+  w : Writer := {}
+  poisoned : Bool := false
+  manual : Bool := false          -- manual_journal_persist
+  deriving Repr, DecidableEq
+
+inductive JOp
+  | single (pieces : List Bytes)                            -- Keyspace::insert / remove
+  | clear (pieces : List Bytes)                             -- Keyspace::clear
+  | batch (pieces : List Bytes) (dur : Option PersistMode)  -- WriteBatch::commit / tx commit
+  | persist (mode : PersistMode)                            -- Database::persist
+  deriving Repr, DecidableEq
+
+inductive JRes | ok | io | poisoned
+  deriving Repr, DecidableEq
+
+/-- every journal I/O error poisons the database (repaired: the append of a batch and of a clear
+    marker used to propagate the error without poisoning, finding F8) -/
+def jstep (db : JDb) : JOp → JDb × JRes
+  | .single pieces =>
+    if db.poisoned then (db, .poisoned) else
+    match db.w.writePieces pieces with
+    | (w, .err) => ({ db with w := w, poisoned := true }, .io)
+    | (w, .ok) =>
+      if db.manual then ({ db with w := w }, .ok) else
+      match w.persist .buffer with
+      | (w', .err) => ({ db with w := w', poisoned := true }, .io)
+      | (w', .ok) => ({ db with w := w' }, .ok)
+  | .clear pieces =>
+    if db.poisoned then (db, .poisoned) else
+    match db.w.writePieces pieces with
+    | (w, .err) => ({ db with w := w, poisoned := true }, .io)
+    | (w, .ok) =>
+      if db.manual then ({ db with w := w }, .ok) else
+      match w.persist .buffer with
+      | (w', .err) => ({ db with w := w', poisoned := true }, .io)
+      | (w', .ok) => ({ db with w := w' }, .ok)
+  | .batch pieces dur =>
+    if pieces.isEmpty then (db, .ok) else
+    if db.poisoned then (db, .poisoned) else
+    match db.w.writePieces pieces with
+    | (w, .err) => ({ db with w := w, poisoned := true }, .io)
+    | (w, .ok) =>
+      match dur with
+      | none => ({ db with w := w }, .ok)
+      | some m =>
+        match w.persist m with
+        | (w', .err) => ({ db with w := w', poisoned := true }, .poisoned)
+        | (w', .ok) => ({ db with w := w' }, .ok)
+  | .persist m =>
+    if db.poisoned then (db, .poisoned) else
+    match db.w.persist m with
+    | (w', .err) => ({ db with w := w', poisoned := true }, .poisoned)
+    | (w', .ok) => ({ db with w := w' }, .ok)
+
+def jrun (db : JDb) : List JOp → JDb × List JRes
+  | [] => (db, [])
+  | o :: os => let (d1, r) := jstep db o; let (d2, rs) := jrun d1 os; (d2, r :: rs)
+
+end Fjall.Journal
